@@ -1,23 +1,26 @@
 #!/bin/bash
-# verify_seed.sh <seed dir> : own confirmation of a seeded change in a scratch worktree (outside /repo and /verif):
-#  demo passes without the patch, patch applies and builds, demo fails with it, full existing suite passes with it.
+# verify_seed.sh <seed dir> [demo|full] : own confirmation of a seeded change in a scratch worktree (outside /repo
+# and /verif): demo passes without the patch, patch applies and builds, demo fails with it; mode full additionally
+# runs the complete existing suite with the patch and compares with the 356-test baseline.
 set -u
-seed=$(realpath "$1"); name=$(basename "$seed")
-wt=/tmp/sv/$name; log=$seed/verify.log
+seed=$(realpath "$1"); name=$(basename "$seed"); mode=${2:-full}
+wt=/tmp/sv/$name; log=$seed/verify.$mode.log
 export GOFLAGS=-mod=mod GOPROXY=off GOSUMDB=off
 mkdir -p /tmp/sv; git -C /repo worktree remove --force $wt 2>/dev/null
 git -C /repo worktree add -q --detach $wt HEAD || exit 3
 demo_cmd=$(python3 -c "import json;print(json.load(open('$seed/meta.json'))['demo_cmd'])")
 {
-echo "== verify $name at $(git -C /repo rev-parse --short HEAD) $(date -u +%FT%TZ)"
+echo "== verify $name ($mode) at $(git -C /repo rev-parse --short HEAD) $(date -u +%FT%TZ)"
 cp -r $seed/demo/. $wt/
 cd $wt
 echo "-- demo without patch"; eval "$demo_cmd" > /tmp/sv/$name.demo0 2>&1; rc0=$?; tail -3 /tmp/sv/$name.demo0; echo "rc=$rc0"
 echo "-- apply + build"; git apply $seed/patch.diff; rca=$?; go build ./... ; rcb=$?; echo "apply=$rca build=$rcb"
 echo "-- demo with patch"; eval "$demo_cmd" > /tmp/sv/$name.demo1 2>&1; rc1=$?; grep -E "^(--- FAIL|FAIL|ok)" /tmp/sv/$name.demo1 | head -5; echo "rc=$rc1"
+rcs=skipped
+if [ "$mode" = "full" ]; then
 echo "-- full suite with patch (demo files removed)"
 (cd $seed/demo && find . -type f) | while read f; do rm -f "$wt/$f"; done
-go test -p 4 -json -vet=off -count=1 -timeout 60m ./... > /tmp/sv/$name.suite.json 2>/tmp/sv/$name.suite.err; rcs=$?
+go test -json -vet=off -count=1 -timeout 60m ./... > /tmp/sv/$name.suite.json 2>/tmp/sv/$name.suite.err; rcs=$?
 python3 - "$name" <<'PY'
 import json,sys
 name=sys.argv[1]
@@ -30,8 +33,8 @@ for l in open(f'/tmp/sv/{name}.suite.json'):
 base=set(json.load(open('/root/.vp/BASELINE.json'))['stable_pass'])
 print("suite: passed",len(passed&base),"of",len(base),"baseline tests; failed:",sorted(failed)[:5],"missing:",sorted(base-passed)[:5])
 PY
-echo "suite rc=$rcs"
-echo "RESULT $name demo_without=$rc0 apply=$rca build=$rcb demo_with=$rc1 suite=$rcs"
+fi
+echo "RESULT $name mode=$mode demo_without=$rc0 apply=$rca build=$rcb demo_with=$rc1 suite=$rcs"
 } > $log 2>&1
 cd /; git -C /repo worktree remove --force $wt; rm -f /tmp/sv/$name.*
 tail -1 $log
